@@ -743,6 +743,9 @@ impl Server for GitSyncServer {
 
     async fn add_snapshot(&mut self, version_id: VersionId, snapshot: Snapshot) -> Result<()> {
         self.reset_to_remote()?;
+        // the reset may have brought new versions: what this handle believes to be the latest
+        // version must follow, or a later add_version would check its parent against a stale one
+        self.read_meta()?;
         // Write the snapshot to a file.
         // If another replica has pushed a snapshot for a later version in the chain between
         // our reset_to_remote and our push, we will overwrite it. This is harmless. A replica
@@ -782,6 +785,7 @@ impl Server for GitSyncServer {
 
     async fn get_snapshot(&mut self) -> Result<Option<(VersionId, Snapshot)>> {
         self.reset_to_remote()?;
+        self.read_meta()?;
 
         let snapshot_path = self.local_path.join("snapshot");
         if let Ok(file) = File::open(&snapshot_path) {
